@@ -8,4 +8,5 @@ pub mod c17;
 pub mod c18;
 pub mod c19;
 pub mod c20;
+pub mod fuzzdec;
 pub mod tree;
